@@ -219,6 +219,9 @@ class PE:
             self.block(s.finalbody, env, func, depth)
             return
         if isinstance(s, ast.Delete):
+            for t in s.targets:
+                if isinstance(t, (ast.Subscript, ast.Attribute)):
+                    self.calls.append(('del', [self.loc_text(t, env, func, depth)], {}, s))
             return
         raise Incomplete('statement outside the partial-evaluation fragment: %s' % norm(s)[:70])
 
@@ -256,7 +259,13 @@ class PE:
                 return '%s[%r]' % (base, env[idx.id])
             if isinstance(idx, ast.Name) and isinstance(env.get(idx.id), Opaque) and env[idx.id].text.startswith('@'):
                 return '%s[%s]' % (base, env[idx.id].text[1:])
+            if isinstance(idx, ast.Name) and isinstance(env.get(idx.id), P):
+                return '%s[%s]' % (base, self.loc_text(idx, env, func, depth))
             return '%s[%s]' % (base, norm(idx))
+        if isinstance(e, ast.Call) and dotted(e.func) == 'getattr' and len(e.args) >= 2:
+            k = self.expr(e.args[1], env, func, depth)
+            if isinstance(k, str):
+                return '%s.%s' % (self.loc_text(e.args[0], env, func, depth), k)
         if isinstance(e, ast.Attribute):
             return '%s.%s' % (self.loc_text(e.value, env, func, depth), e.attr)
         if isinstance(e, ast.Name):
@@ -559,7 +568,7 @@ class PE:
         kw = {k.arg: self.expr(k.value, env, func, depth) for k in e.keywords if k.arg is not None}
         ctext = name
         if ctext is None and isinstance(e.func, ast.Attribute):
-            ctext = '%s.%s' % (self.loc_text(e.func.value, env, func, depth) if isinstance(e.func.value, (ast.Name, ast.Attribute, ast.Subscript)) else norm(e.func.value), e.func.attr)
+            ctext = '%s.%s' % (self.loc_text(e.func.value, env, func, depth) if isinstance(e.func.value, (ast.Name, ast.Attribute, ast.Subscript, ast.Call)) else norm(e.func.value), e.func.attr)
         self.calls.append((ctext or norm(e.func), args, kw, e))
         if self.call_hook is not None:
             r = self.call_hook(self, name, e, args, kw, env, func, depth)
